@@ -40,6 +40,12 @@ pub fn type_name(t: Type) -> String {
     }
 }
 
+/// An element type that consumes exactly one data item of any kind.
+pub struct Skipped;
+impl<'b, C> minicbor::Decode<'b, C> for Skipped {
+    fn decode(d: &mut Decoder<'b>, _: &mut C) -> Result<Self, Error> { d.skip().map(|_| Skipped) }
+}
+
 /// Decoder accessor by name at (buf, pos).
 pub fn acc(name: &str, buf: &[u8], pos: usize) -> Value {
     crate::alloc::set_case("acc", name, buf);
@@ -75,6 +81,14 @@ pub fn acc(name: &str, buf: &[u8], pos: usize) -> Value {
             let r: Result<(Vec<u8>, bool), Error> = (|| { let mut cat = Vec::new(); let mut borrowed = true;
                 for c in d.str_iter()? { let c = c?; borrowed &= vslice("x", buf, c.as_bytes())["off"] != -1; cat.extend_from_slice(c.as_bytes()) } Ok((cat, borrowed)) })();
             res(r, &d, |(cat, b)| json!({"k":"strcat","cat":bytes(&cat),"borrowed":b}))
+        }
+        "array_iter" => {
+            let r: Result<u64, Error> = (|| { let mut n = 0u64; for x in d.array_iter::<Skipped>()? { x?; n += 1 } Ok(n) })();
+            res(r, &d, |n| json!({"k":"count","n":n}))
+        }
+        "map_iter" => {
+            let r: Result<u64, Error> = (|| { let mut n = 0u64; for x in d.map_iter::<Skipped, Skipped>()? { x?; n += 1 } Ok(n) })();
+            res(r, &d, |n| json!({"k":"count","n":n}))
         }
         "array" => { let r = d.array(); res(r, &d, vlen) }
         "map" => { let r = d.map(); res(r, &d, vlen) }
